@@ -36,7 +36,8 @@ type Program struct {
 
 	funcDecls map[*types.Func]*ast.FuncDecl
 	declPkg   map[*ast.FuncDecl]*packages.Package
-	hidden    map[*ast.FuncDecl]bool // helpers that were inlined into all of their callers
+	hidden    map[*ast.FuncDecl]bool   // helpers that were inlined into all of their callers
+	standIn   map[*ast.FuncDecl]string // function -> "T.m" of the inventory method it replaced
 	opt       LoadOptions
 	mutated   bool // some syntax tree was rewritten by the inliner
 	overlay   map[string][]byte
@@ -361,6 +362,20 @@ func (p *Program) Named(pkgPath, name string) *types.Named {
 	n, _ := tn.Type().(*types.Named)
 	return n
 }
+
+// InInventory reports whether the pinned tree's inventory lists the declaration (kind: func, type,
+// field, const, var; name package-qualified).
+func (p *Program) InInventory(kind, name string) bool {
+	if p == nil || p.opt.Baseline == nil {
+		return true // without an inventory everything counts as known
+	}
+	_, ok := p.opt.Baseline.Decls[kind][name]
+	return ok
+}
+
+// StoodInFor returns "T.m" when fd is the package-level function that a method of the inventory was
+// turned into, else "".
+func (p *Program) StoodInFor(fd *ast.FuncDecl) string { return p.standIn[fd] }
 
 // AllFuncDecls iterates over the function declarations of a package in source order, without
 // the helpers that were inlined into all of their callers.
